@@ -495,6 +495,7 @@ fn interface_def<'a>(input: &mut &'a [u8]) -> ModalResult<Interface<'a>, InputEr
             Error(Error<'a>),
         }
 
+        let checkpoint = *input;
         let result = alt((
             type_def.map(ParsedMember::Custom),
             method_def.map(ParsedMember::Method),
@@ -506,7 +507,12 @@ fn interface_def<'a>(input: &mut &'a [u8]) -> ModalResult<Interface<'a>, InputEr
             Ok(ParsedMember::Custom(custom_type)) => custom_types.push(custom_type),
             Ok(ParsedMember::Method(method)) => methods.push(method),
             Ok(ParsedMember::Error(error)) => errors.push(error),
-            Err(_) => break,
+            Err(_) => {
+                // Not a member: leave it in the input so that the caller reports it, instead of
+                // keeping whatever the last alternative consumed before it failed.
+                *input = checkpoint;
+                break;
+            }
         }
     }
 
